@@ -50,26 +50,32 @@ func c49CheckClosed(rt *rapid.T, n *nsNode) {
 	// closed signal can complete a write; an open socket blocks instead.
 	close(n.stopPump)
 	synctest.Wait()
-	res := make(chan error, 1)
-	conn := n.ctrl.f.outside.(*udp.TesterConn)
-	go func() {
-		var err error
-		for i := 0; i < cap(conn.TxPackets)+2 && err == nil; i++ {
-			err = conn.WriteTo([]byte{1}, netip.MustParseAddrPort("192.0.2.1:1"))
+	// every socket the node opened (one per configured routine, whether or not a routine ended up using it)
+	for wi, wr := range n.ctrl.f.writers {
+		conn, ok := wr.(*udp.TesterConn)
+		if !ok {
+			continue
 		}
-		res <- err
-	}()
-	synctest.Wait()
-	select {
-	case err := <-res:
-		if err == nil {
-			rt.Fatalf("node %s: the UDP socket still accepts writes after Stop", n.name)
+		res := make(chan error, 1)
+		go func() {
+			var err error
+			for i := 0; i < cap(conn.TxPackets)+2 && err == nil; i++ {
+				err = conn.WriteTo([]byte{1}, netip.MustParseAddrPort("192.0.2.1:1"))
+			}
+			res <- err
+		}()
+		synctest.Wait()
+		select {
+		case err := <-res:
+			if err == nil {
+				rt.Fatalf("node %s: UDP socket %d of %d still accepts writes after Stop", n.name, wi, len(n.ctrl.f.writers))
+			}
+		default:
+			for len(conn.TxPackets) > 0 {
+				<-conn.TxPackets
+			}
+			rt.Fatalf("node %s: UDP socket %d of %d is still open after Stop (a write blocks instead of failing)", n.name, wi, len(n.ctrl.f.writers))
 		}
-	default:
-		for len(conn.TxPackets) > 0 {
-			<-conn.TxPackets
-		}
-		rt.Fatalf("node %s: the UDP socket is still open after Stop (a write blocks instead of failing)", n.name)
 	}
 	if _, err := n.ctrl.f.inside.(*overlay.TestTun).Write([]byte{0x45}); err == nil {
 		rt.Fatalf("node %s: the tun device still accepts writes after Stop", n.name)
@@ -99,6 +105,11 @@ func TestC49_StopAnywhere(t *testing.T) {
 			qbuf := rapid.SampledFrom([]int{64, 64, 1, 2}).Draw(rt, "queryBuffer")
 			w := nsGenWorld(rt, s, nsWorldOpts{minHosts: 2, maxHosts: 4, lighthouse: 0.6, relay: 0.5, partition: 0.5, v6: true, extra: func(sp *nsNodeSpec, cfg nsM) {
 				cfg["handshakes"] = nsM{"query_buffer": qbuf}
+				// more than one routine: the node opens that many sockets (the in-memory backend then runs
+				// one reader all the same)
+				if r := rapid.SampledFrom([]int{1, 1, 1, 2, 3}).Draw(rt, sp.name+".routines"); r > 1 {
+					cfg["routines"] = r
+				}
 			}})
 			w.pid = "C49"
 			h := &nsHist{rt: rt, w: w, delivered: map[int]map[int]bool{}, stats: map[string]int{}}
